@@ -4,6 +4,7 @@ import (
 	"fmt"
 	"log"
 	"strings"
+	"sync"
 )
 
 // A Level is the importance or severity of a log event.
@@ -31,6 +32,7 @@ const (
 
 // SimpleLogger implements the [Logger] interface.
 type SimpleLogger struct {
+	mtx    sync.Mutex // keeps a prefix together with its line
 	logger *log.Logger
 	level  Level
 }
@@ -48,41 +50,44 @@ func NewSimpleLogger(logger *log.Logger, level Level) *SimpleLogger {
 // Trace logs at the trace level.
 func (l *SimpleLogger) Trace(msg string, args ...any) {
 	if l.enabled(LevelTrace) {
-		l.logger.SetPrefix(tracePrefix)
-		_ = l.logger.Output(2, formatMessage(msg, args))
+		l.output(tracePrefix, formatMessage(msg, args))
 	}
 }
 
 // Debug logs at the debug level.
 func (l *SimpleLogger) Debug(msg string, args ...any) {
 	if l.enabled(LevelDebug) {
-		l.logger.SetPrefix(debugPrefix)
-		_ = l.logger.Output(2, formatMessage(msg, args))
+		l.output(debugPrefix, formatMessage(msg, args))
 	}
 }
 
 // Info logs at the info level.
 func (l *SimpleLogger) Info(msg string, args ...any) {
 	if l.enabled(LevelInfo) {
-		l.logger.SetPrefix(infoPrefix)
-		_ = l.logger.Output(2, formatMessage(msg, args))
+		l.output(infoPrefix, formatMessage(msg, args))
 	}
 }
 
 // Warn logs at the warn level.
 func (l *SimpleLogger) Warn(msg string, args ...any) {
 	if l.enabled(LevelWarn) {
-		l.logger.SetPrefix(warnPrefix)
-		_ = l.logger.Output(2, formatMessage(msg, args))
+		l.output(warnPrefix, formatMessage(msg, args))
 	}
 }
 
 // Error logs at the error level.
 func (l *SimpleLogger) Error(msg string, args ...any) {
 	if l.enabled(LevelError) {
-		l.logger.SetPrefix(errorPrefix)
-		_ = l.logger.Output(2, formatMessage(msg, args))
+		l.output(errorPrefix, formatMessage(msg, args))
 	}
+}
+
+// output writes the message with the given prefix.
+func (l *SimpleLogger) output(prefix, message string) {
+	l.mtx.Lock()
+	defer l.mtx.Unlock()
+	l.logger.SetPrefix(prefix)
+	_ = l.logger.Output(3, message)
 }
 
 // enabled reports whether the SimpleLogger handles records at the given level.
